@@ -908,11 +908,25 @@ class Unit:
 
     def __rtruediv__(self, other: Any) -> Quantity:
         """other / self"""
+        # The resulting quantity may get quantized. Therefore we
+        # have to calculate the final amount before creating the result!
         if isinstance(other, Rational):
-            return other * self ** -1
+            amnt, unit = self._pow(-1)
+            return (other * amnt) * unit
         if isinstance(other, Real):
-            return Decimal(other) * self ** -1
+            amnt, unit = self._pow(-1)
+            return (Decimal(other) * amnt) * unit
         return NotImplemented
+
+    def _pow(self, exp: int) -> AmountUnitTupleT:
+        """Return (amount, unit) so that amount * unit == self ** exp."""
+        res_def = UnitDefT(((self, exp),))
+        try:
+            return _amnt_and_unit_from_term(res_def)
+        except KeyError:
+            raise UndefinedResultError(operator.pow,
+                                       self._qty_cls.__name__, exp) \
+                from None
 
     def __pow__(self, exp: Any) -> Union[Quantity, Rational]:
         """self ** exp"""
@@ -921,13 +935,8 @@ class Unit:
                 return ONE
             if exp == 1:
                 return self._qty_cls(ONE, self)
-            res_def = UnitDefT(((self, exp),))
-            try:
-                return _qty_from_term(res_def)  # type: ignore
-            except KeyError:
-                raise UndefinedResultError(operator.pow,
-                                           self._qty_cls.__name__, exp) \
-                    from None
+            amnt, unit = self._pow(exp)
+            return amnt * unit
         return NotImplemented
 
     def __repr__(self) -> str:
@@ -1698,17 +1707,28 @@ class Quantity(metaclass=QuantityMeta):
 
     def __rtruediv__(self, other: Any) -> Quantity:
         """other / self"""
+        # The resulting quantity may get quantized. Therefore we
+        # have to calculate the final amount before creating the result!
         if isinstance(other, Rational):
-            return (other / self.amount) * self.unit ** -1
+            amnt, unit = self.unit._pow(-1)
+            return (other / self.amount * amnt) * unit
         if isinstance(other, Real):
-            return (other / Decimal(self.amount)) * self.unit ** -1
+            amnt, unit = self.unit._pow(-1)
+            return (other / Decimal(self.amount) * amnt) * unit
         return NotImplemented
 
     def __pow__(self, exp: int) -> Quantity:
         """self ** exp"""
         if not isinstance(exp, int):
             return NotImplemented
-        return self.amount ** exp * self.unit ** exp
+        if exp == 0:
+            return ONE
+        if exp == 1:
+            return self.__class__(self.amount, self.unit)
+        # The resulting quantity may get quantized. Therefore we
+        # have to calculate the final amount before creating the result!
+        amnt, unit = self.unit._pow(exp)
+        return (self.amount ** exp * amnt) * unit
 
     def __round__(self: Q, n_digits: int = 0) -> Q:
         """Return copy of `self` with its amount rounded to `n_digits`.
